@@ -4,4 +4,4 @@ From OlaBase Require Import Bytes.
 From C12 Require Import Gen Model.
 Extraction Language OCaml.
 Extraction "model.ml" io_witness N.div_eucl init exec_op destroy dups sorted_lt accepted_ids
-  bad_data lost measure.
+  bad_data lost measure dv_of.
